@@ -298,7 +298,7 @@ static void write_objective (
 	const char *objname,
 	char **colnames)
 {
-	int ri, i, k, var;
+	int ri, i, k, var, any = 0;
 	EGLPNUM_TYPENAME_ILLwrite_lp_state ln, *line = &ln;
 
 	if (lp->probname != NULL)
@@ -328,6 +328,7 @@ static void write_objective (
 			EGLPNUM_TYPENAME_ILLwrite_lp_state_append (line, " ");
 			EGLPNUM_TYPENAME_ILLwrite_lp_state_append (line, colnames[ri]);
 			var++;
+			any = 1;
 
 			/* we put a least 4 terms on a line 
 			 * and then we stop after LINE_LEN or more characters 
@@ -361,6 +362,14 @@ static void write_objective (
 	}
 	if (var > 0)
 	{
+		EGLPNUM_TYPENAME_ILLprint_report (lp, "%s\n", line->buf);
+	}
+	else if (!any && lp->nstruct > 0)
+	{
+		/* an objective that is zero still gets its line: without it the reader
+		 * names the objective "obj" itself, whatever the rows are called */
+		EGLPNUM_TYPENAME_ILLwrite_lp_state_append (line, " 0 ");
+		EGLPNUM_TYPENAME_ILLwrite_lp_state_append (line, colnames[0]);
 		EGLPNUM_TYPENAME_ILLprint_report (lp, "%s\n", line->buf);
 	}
 }
